@@ -46,6 +46,13 @@ func c01r9(p *model.Prog, r *report.Result) {
 				case *ssa.MakeSlice:
 					fresh = true
 				case *ssa.Call:
+					// a helper of lal whose every return is a slice it has just made
+					if ce := x.Call.StaticCallee(); ce != nil && model.IsLal(ce) && allReturnsSatisfy(ce, 0, func(v ssa.Value) bool {
+						_, isMk := model.Unwrap(v).(*ssa.MakeSlice)
+						return isMk
+					}) {
+						fresh = true
+					}
 					// append(net.Buffers(nil), bs...) / append([]..{}, bs...) also makes a private vector
 					if b, isB := x.Call.Value.(*ssa.Builtin); isB && b.Name() == "append" {
 						base := model.Unwrap(x.Call.Args[0])
@@ -1139,4 +1146,19 @@ func chainFns(d model.DeepInstr) []*ssa.Function {
 		add(c.Common().StaticCallee())
 	}
 	return out
+}
+
+// allReturnsSatisfy: fn has source, at least one return, and result idx of every return satisfies pred.
+func allReturnsSatisfy(fn *ssa.Function, idx int, pred func(ssa.Value) bool) bool {
+	rets := model.ReturnsOf(fn)
+	if len(fn.Blocks) == 0 || len(rets) == 0 {
+		return false
+	}
+	for _, ret := range rets {
+		rv := model.ReturnValues(ret)
+		if idx >= len(rv) || !pred(rv[idx]) {
+			return false
+		}
+	}
+	return true
 }
